@@ -32,6 +32,14 @@ class KaniSession:
             f.write("\n" + text + "\n")
         self.spliced.append({"file": rel, "lines_appended": text.count("\n") + 1})
 
+    def append_once(self, rel, text, key):
+        if not hasattr(self, "_once"):
+            self._once = set()
+        if (rel, key) in self._once:
+            return
+        self._once.add((rel, key))
+        self.append(rel, text)
+
     def prepend_crate_attr(self, rel, text):
         """Insert an inner attribute line (`#![cfg_attr(kani, ...)]`) at the top of a crate root."""
         p = os.path.join(self.root, rel)
